@@ -1,5 +1,5 @@
 //! C05 — local L2 order book. Ops (see lean/BarterModel/Driver/C05.lean):
-//!   `init n` | `snap k seq | p:a … | p:a …` | `upd k seq | p:a … | p:a …` | `re` | `mgr`
+//!   `init n` | `snap k seq | p:a … | p:a …` | `upd k seq | p:a … | p:a …` | `updr …` | `depth k d` | `re` | `mgr`
 //! Every `snap`/`upd` is built with the real `OrderBook::new` and applied with the real
 //! `OrderBook::update`; observations come from `bids().levels()`, `asks().levels()`, `sequence`,
 //! `mid_price()`, `volume_weighed_mid_price()`, `snapshot(depth)`. `mgr` replays the whole stream of
@@ -45,23 +45,23 @@ fn parse_levels(toks: &[String]) -> Vec<Level> {
         .collect()
 }
 
-/// `k seq | bids | asks`
-fn parse_body(toks: &[String]) -> (usize, OrderBook) {
+/// `k seq | bids | asks`; `None` (reported as `bad-op`, as the drivers do) when `seq` is not a `u64`
+fn parse_body(toks: &[String]) -> Option<(usize, OrderBook)> {
     let k: usize = toks[0].parse().expect("key");
-    let seq: u64 = toks[1].parse().expect("sequence");
+    let seq: u64 = toks[1].parse().ok()?;
     assert_eq!(toks[2], "|", "bad op");
     let rest = &toks[3..];
     let bar = rest.iter().position(|t| t == "|").expect("second |");
     let bids = parse_levels(&rest[..bar]);
     let asks = parse_levels(&rest[bar + 1..]);
-    (k, OrderBook::new(seq, None, bids, asks))
+    Some((k, OrderBook::new(seq, None, bids, asks)))
 }
 
 /// `k seq | bids | asks` for `updr`: the update's sides hold the levels in the order given. `OrderBook::new`
 /// sorts, so the book is obtained the way a user gets an unsorted one: through the type's own
 /// `Deserialize` (the serialised form of a book built by `new`, with the level arrays replaced).
-fn parse_body_raw(toks: &[String]) -> (usize, OrderBook) {
-    let (k, sorted) = parse_body(toks);
+fn parse_body_raw(toks: &[String]) -> Option<(usize, OrderBook)> {
+    let (k, sorted) = parse_body(toks)?;
     let rest = &toks[3..];
     let bar = rest.iter().position(|t| t == "|").expect("second |");
     let raw = |ls: Vec<Level>| serde_json::to_value(ls).expect("levels serialise");
@@ -71,7 +71,7 @@ fn parse_body_raw(toks: &[String]) -> (usize, OrderBook) {
     v["asks"]["side"] = serde_json::Value::Null;
     v["bids"]["levels"] = raw(parse_levels(&rest[..bar]));
     v["asks"]["levels"] = raw(parse_levels(&rest[bar + 1..]));
-    (k, serde_json::from_value(v).expect("book deserialises"))
+    Some((k, serde_json::from_value(v).expect("book deserialises")))
 }
 
 const DEPTHS: [usize; 3] = [0, 1, 3];
@@ -119,7 +119,11 @@ fn run() {
                     lines.push("skip".into());
                 }
                 "snap" | "upd" | "updr" => {
-                    let (k, book) = if op[0] == "updr" { parse_body_raw(&op[1..]) } else { parse_body(&op[1..]) };
+                    let parsed = if op[0] == "updr" { parse_body_raw(&op[1..]) } else { parse_body(&op[1..]) };
+                    let Some((k, book)) = parsed else {
+                        lines.push("bad-op".into());
+                        continue;
+                    };
                     let stored = fmt_sides(&book);
                     let event = if op[0] == "snap" {
                         OrderBookEvent::Snapshot(book)
@@ -134,6 +138,15 @@ fn run() {
                     lines.push(format!("ev {stored}"));
                     books[k].update(event);
                     observe(&books[k], lines);
+                }
+                "depth" => {
+                    // `snapshot(d)` of the book of key `k` for an arbitrary depth (a `usize`)
+                    let k: usize = op[1].parse().expect("key");
+                    match op[2].parse::<usize>() {
+                        Err(_) => lines.push("bad-op".into()),
+                        Ok(_) if k >= n => lines.push("skip".into()),
+                        Ok(d) => lines.push(format!("snapd {}", fmt_book(&books[k].snapshot(d)))),
+                    }
                 }
                 "mgr" => {
                     let mut map = FnvHashMap::default();
@@ -204,6 +217,276 @@ fn snapshot_levels(rng: &mut Rng, grid: &Grid) -> Vec<String> {
         ps.swap(i, j);
     }
     ps.into_iter().map(|p| format!("{p}:{}", amount(rng, 0))).collect()
+}
+
+
+// ---- input-domain family (`d<id>` cases; own random stream, so the `r` / `x` cases stay as they are) ----
+
+const SEQ_EDGES: [u64; 10] = [
+    0,
+    1,
+    4294967295,
+    4294967296,
+    9007199254740993,
+    9223372036854775807,
+    9223372036854775808,
+    18446744073709551614,
+    18446744073709551615,
+    18446744073709551615,
+];
+
+/// the same price written with trailing zeros now and then (`100`, `100.0`, `100.00` are one price)
+fn price_text(rng: &mut Rng, p: &str) -> String {
+    if !rng.chance(15) {
+        return p.to_string();
+    }
+    let z = *rng.pick(&["0", "00"]);
+    if p.contains('.') { format!("{p}{z}") } else { format!("{p}.{z}") }
+}
+
+/// amounts of the signed class: zero (also written `-0`, `-0.0`), positive (at most 3 decimals, as `amount`) or
+/// negative with a non-zero 4th decimal - so a negative amount never cancels a positive one and
+/// `volume_weighed_mid_price` never divides by zero (that panic is modelled by the sub-check C05M)
+fn signed_amount(rng: &mut Rng, zero_pct: u64, neg_pct: u64) -> String {
+    if rng.chance(zero_pct) {
+        return (*rng.pick(&["0", "0.0", "-0", "-0.0", "0.000"])).to_string();
+    }
+    if rng.chance(neg_pct) {
+        return (*rng.pick(&["-0.0005", "-1.0005", "-0.2505", "-12.3455", "-49.9995", "-7.0001"])).to_string();
+    }
+    amount(rng, 0)
+}
+
+/// amounts of the magnitude class: 1e-8 … 1e12, at most 13 significant digits, positive
+fn wide_amount(rng: &mut Rng, zero_pct: u64) -> String {
+    if rng.chance(zero_pct) {
+        return (*rng.pick(&["0", "0.00000000"])).to_string();
+    }
+    (*rng.pick(&[
+        "0.00000001",
+        "0.00000003",
+        "0.12345678",
+        "1",
+        "99999.99999999",
+        "1000000000000",
+        "999999999999.9",
+        "250000000",
+    ]))
+    .to_string()
+}
+
+struct DomCfg {
+    bid_prices: Vec<String>,
+    ask_prices: Vec<String>,
+    /// 0 = `amount`, 1 = `signed_amount`, 2 = `wide_amount`
+    amounts: u8,
+    edge_seq: bool,
+    max_levels: usize,
+    events: i64,
+    snapshot_keep_pct: u64,
+    /// the side that never receives a level (0 = none, 1 = bids stay empty, 2 = asks stay empty)
+    empty_side: u8,
+}
+
+fn dom_levels(rng: &mut Rng, cfg: &DomCfg, prices: &[String], update: bool) -> Vec<String> {
+    let zero_pct = if update { *rng.pick(&[10u64, 30, 60]) } else { 0 };
+    let am = |rng: &mut Rng| match cfg.amounts {
+        1 => signed_amount(rng, zero_pct, 35),
+        2 => wide_amount(rng, zero_pct),
+        _ => amount(rng, zero_pct),
+    };
+    if update {
+        let len = if rng.chance(10) { 0 } else { rng.range(1, cfg.max_levels as i64) as usize };
+        // a long book: besides arbitrary levels, single levels at the front / back / middle of the grid
+        if prices.len() > 40 && rng.chance(50) {
+            let i = match rng.below(4) {
+                0 => 0,
+                1 => prices.len() - 1,
+                2 => prices.len() / 2,
+                _ => rng.below(prices.len() as u64) as usize,
+            };
+            return vec![format!("{}:{}", price_text(rng, &prices[i]), am(rng))];
+        }
+        (0..len)
+            .map(|_| {
+                let p = prices[rng.below(prices.len() as u64) as usize].clone();
+                format!("{}:{}", price_text(rng, &p), am(rng))
+            })
+            .collect()
+    } else {
+        let mut ps: Vec<&String> = prices.iter().filter(|_| rng.chance(cfg.snapshot_keep_pct)).collect();
+        for i in (1..ps.len()).rev() {
+            let j = rng.below(i as u64 + 1) as usize;
+            ps.swap(i, j);
+        }
+        ps.into_iter().map(|p| format!("{}:{}", price_text(rng, p), am(rng))).collect()
+    }
+}
+
+fn grid_of(base: i64, step: i64, scale: u32, count: usize) -> Vec<String> {
+    (0..count as i64).map(|i| dec_str(base + i * step, scale)).collect()
+}
+
+/// One case of the input-domain family; the class is fixed by the case index:
+///  0 signed      prices below, at and above zero; negative amounts; `-0`
+///  1 sequence    u64 sequence numbers 0, 1, 2^32-1, 2^32, 2^53+1, 2^63-1, 2^63, u64::MAX-1, u64::MAX in any order
+///  2 magnitude   prices at 1e-8 and at 1e12, amounts 1e-8 … 1e12 (products stay within 28 digits)
+///  3 shaped      an uncrossed or locked book (bids below asks), or a book with one side never populated
+///  4 long        (every 4th round only) a side of 100-260 levels (grid of 140-260 prices), single upserts at front / middle / back, long updates
+/// every class adds `depth k d` for d around the side lengths, 0, 1 and usize::MAX.
+fn domain_case(out: &mut Out, rng: &mut Rng, idx: usize) {
+    let class = match idx % 5 {
+        4 if (idx / 5) % 4 != 0 => rng.below(4) as usize,
+        c => c,
+    };
+    let small = |rng: &mut Rng| {
+        let count = rng.range(2, 8) as usize;
+        let (b, st, sc) = *rng.pick(&[(100i64, 1i64, 0u32), (1000, 5, 1), (99990, 5, 2), (1, 1, 4), (25000, 125, 3)]);
+        grid_of(b, st, sc, count)
+    };
+    let mut cfg = DomCfg {
+        bid_prices: vec![],
+        ask_prices: vec![],
+        amounts: 0,
+        edge_seq: rng.chance(15),
+        max_levels: 12,
+        events: rng.range(1, 25),
+        snapshot_keep_pct: 55,
+        empty_side: 0,
+    };
+    match class {
+        0 => {
+            let count = rng.range(2, 8);
+            let (st, sc) = *rng.pick(&[(1i64, 0u32), (5, 1), (1, 4), (125, 3), (1, 8)]);
+            // the grid starts below zero and usually reaches or passes it
+            let g = grid_of(-st * rng.range(1, count), st, sc, count as usize);
+            let mut g: Vec<String> = g.into_iter().map(|p| if p == "0" && rng.chance(30) { "-0".to_string() } else { p }).collect();
+            if rng.chance(30) {
+                g.push("100".into());
+            }
+            cfg.bid_prices = g.clone();
+            cfg.ask_prices = g;
+            cfg.amounts = 1;
+        }
+        1 => {
+            let g = small(rng);
+            cfg.bid_prices = g.clone();
+            cfg.ask_prices = g;
+            cfg.edge_seq = true;
+        }
+        2 => {
+            let lo = grid_of(1, 1, 8, rng.range(1, 4) as usize);
+            let hi = grid_of(100_000_000_000_000 - 2, 1, 2, rng.range(1, 5) as usize);
+            let mid = grid_of(12_345_678, 1, 4, 2);
+            let all: Vec<String> = lo.iter().chain(mid.iter()).chain(hi.iter()).cloned().collect();
+            match rng.below(3) {
+                0 => {
+                    cfg.bid_prices = lo;
+                    cfg.ask_prices = hi;
+                }
+                1 => {
+                    cfg.bid_prices = all.clone();
+                    cfg.ask_prices = all;
+                }
+                _ => {
+                    cfg.bid_prices = hi.clone();
+                    cfg.ask_prices = hi;
+                }
+            }
+            cfg.amounts = 2;
+        }
+        3 => {
+            let g = small(rng);
+            let cut = rng.range(1, g.len() as i64 - 1).max(1) as usize;
+            match rng.below(4) {
+                0 => {
+                    // uncrossed
+                    cfg.bid_prices = g[..cut].to_vec();
+                    cfg.ask_prices = g[cut.min(g.len() - 1)..].to_vec();
+                }
+                1 => {
+                    // may lock at g[cut]
+                    cfg.bid_prices = g[..=cut.min(g.len() - 1)].to_vec();
+                    cfg.ask_prices = g[cut.min(g.len() - 1)..].to_vec();
+                }
+                2 => {
+                    cfg.bid_prices = g.clone();
+                    cfg.ask_prices = g;
+                    cfg.empty_side = 1;
+                }
+                _ => {
+                    cfg.bid_prices = g.clone();
+                    cfg.ask_prices = g;
+                    cfg.empty_side = 2;
+                }
+            }
+        }
+        _ => {
+            let count = rng.range(140, 260) as usize;
+            let (b, st, sc) = *rng.pick(&[(100i64, 1i64, 0u32), (99990, 5, 2), (-120, 1, 0), (25000, 125, 3)]);
+            let g = grid_of(b, st, sc, count);
+            cfg.bid_prices = g.clone();
+            cfg.ask_prices = g;
+            cfg.max_levels = *rng.pick(&[12usize, 80, 300]);
+            cfg.events = rng.range(2, 7);
+            cfg.snapshot_keep_pct = *rng.pick(&[70u64, 90, 100]);
+        }
+    }
+    let n = if rng.chance(80) { 1 } else { 2 };
+    out.line(format!("init {n}"));
+    let mut seq: u64 = if rng.chance(20) { 0 } else { rng.range(0, 1000) as u64 };
+    let snap_first_pct = if class == 4 { 100 } else { *rng.pick(&[0u64, 80, 100]) };
+    let mut size_hint = 0usize; // length of the last snapshot's bid side: depths are drawn around it
+    for i in 0..cfg.events {
+        let k = if rng.chance(4) { n } else { rng.below(n as u64) as usize };
+        seq = if cfg.edge_seq && rng.chance(60) {
+            *rng.pick(&SEQ_EDGES)
+        } else {
+            match rng.below(10) {
+                0 => seq,
+                1 => seq.saturating_sub(rng.below(5)),
+                _ => seq.saturating_add(1 + rng.below(3)),
+            }
+        };
+        let snap = if i == 0 { rng.chance(snap_first_pct) } else { rng.chance(8) };
+        let (mut b, mut a);
+        let op;
+        if snap {
+            b = dom_levels(rng, &cfg, &cfg.bid_prices, false);
+            a = dom_levels(rng, &cfg, &cfg.ask_prices, false);
+            size_hint = if cfg.empty_side == 1 { a.len() } else { b.len() };
+            op = "snap";
+        } else {
+            b = dom_levels(rng, &cfg, &cfg.bid_prices, true);
+            a = dom_levels(rng, &cfg, &cfg.ask_prices, true);
+            match rng.below(6) {
+                0 => a.clear(),
+                1 => b.clear(),
+                _ => {}
+            }
+            op = if rng.chance(40) { "updr" } else { "upd" };
+        }
+        match cfg.empty_side {
+            1 => b.clear(),
+            2 => a.clear(),
+            _ => {}
+        }
+        out.line(format!("{op} {k} {seq} | {} | {}", b.join(" "), a.join(" ")));
+        if rng.chance(if class == 4 { 70 } else { 25 }) {
+            let d = match rng.below(8) {
+                0 => "0".to_string(),
+                1 => "1".to_string(),
+                2 => size_hint.saturating_sub(1).to_string(),
+                3 => size_hint.to_string(),
+                4 => (size_hint + 1).to_string(),
+                5 => rng.range(2, 9).to_string(),
+                6 => "100".to_string(),
+                _ => "18446744073709551615".to_string(),
+            };
+            out.line(format!("depth {k} {d}"));
+        }
+    }
+    out.line("mgr");
 }
 
 fn generate(seed: u64, n_cases: usize, tier: &str) {
@@ -307,6 +590,13 @@ fn generate(seed: u64, n_cases: usize, tier: &str) {
             }
         }
         out.line("mgr");
+    }
+    // input-domain family: one case per five random ones, from its own random stream
+    let mut drng = Rng::new(seed ^ 0xD0_5D05);
+    for j in 0..n_cases / 5 {
+        id += 1;
+        out.case(format!("d{id}"));
+        domain_case(&mut out, &mut drng, j);
     }
     out.flush();
 }
